@@ -1,7 +1,4 @@
-// Included by hook H3 inside `crate::protocol::context` (access to Batcher / Batch).
+// Included by hook H3 inside `crate::protocol::context` (access to Batcher).
 pub(crate) mod c16 {
     include!(concat!(env!("IPA_VERIF_DIR"), "/harness/c16.rs"));
-}
-pub(crate) mod c03 {
-    include!(concat!(env!("IPA_VERIF_DIR"), "/harness/c03.rs"));
 }
